@@ -85,6 +85,18 @@ One can reverse a captured panic stack trace as follows:
 					addHashedWithPackage(node.Name.Name)
 				case *ast.TypeSpec:
 					addHashedWithPackage(node.Name.Name)
+				case *ast.ValueSpec:
+					// Package-level variables show up in the output of
+					// tools which use "garble map", such as binding generators.
+					for _, name := range node.Names {
+						obj := tf.info.ObjectOf(name)
+						if obj == nil || obj.Parent() != tf.pkg.Scope() {
+							continue
+						}
+						if newName, ok := tf.obfuscatedObjectName(obj); ok {
+							replaces = append(replaces, newName, name.Name)
+						}
+					}
 				case *ast.Field:
 					for _, name := range node.Names {
 						if fn, _ := tf.info.ObjectOf(name).(*types.Func); fn != nil {
